@@ -241,3 +241,63 @@ _m("C15",
    "six uses the stochastic cost: the reference replays the identical seeded SSA runs on fresh models.  Non-trivial: "
    ">= 2 measured species, or >= 2 trajectories with distinct conditions.",
    _COMMON + ["models have no rules", "the stochastic reference uses bioscrape's own SSA on fresh models (alignment and bookkeeping are what is tested there)"])
+
+_m("C08",
+   "Hypothesis generates call histories: a final definition (1..3 species + 0..2 rule-target species, 1..4 bounded "
+   "reactions of every propensity type, optionally with delayed products of each delay family, species-assigning rules "
+   "of every frequency, named and numeric parameters) is reached through a random order of incremental edits "
+   "(_add_species, create_reaction, create_rule, create_parameter / set_parameter / set_params, set_species, incl. "
+   "temporary values and names the model does not know yet) interleaved with py_initialize, seeded and unseeded "
+   "simulations in eight modes, interface construction, simulations through remembered (possibly stale) interfaces "
+   "and re-seeding.  Oracle: at every seeded simulation and in 2..4 modes at the end the outcome equals that of a model "
+   "built at once by the constructor from the abstract definition (identical for stochastic modes, 1e-9 relative for "
+   "deterministic; also with a permuted species declaration order), two seeded runs are identical, the species and "
+   "parameter dictionaries are what the history set, and a remembered interface either raises the documented "
+   "'Model has been changed' error or gives the current definition's result.  Non-trivial: a complete definition "
+   "with an edit after an initialisation or simulation and at least one simulation before the final comparison.",
+   _COMMON + ["histories are bounded by the stated length", "no rule assigns a parameter (property's own precondition)",
+              "reaction and rule order are part of the definition; species and parameter order are not"])
+
+_m("C17",
+   "Hypothesis generates three families.  model: bounded networks whose general rates multiply factors over every "
+   "expression-node class (pow exp log abs Heaviside min max t volume), every propensity type, delayed products of "
+   "each delay family, species rules of every type and frequency (plus structurally arbitrary models with "
+   "parameter-assigning rules); optional simulations / value edits / initialisations before cloning; clone chains of "
+   "1..3 steps over pickle protocols 2..5 and deepcopy.  lineage: A<->B(+G) lineage models with each growth rule / "
+   "event, division rule / event (LineageVolumeSplitter with per-species binomial / perfect / duplicate modes, volume "
+   "mode, partition noise) and death rule / event.  result: result objects, cell states, queues, schnitzes, lineages "
+   "and experimental lineages from real seeded simulations.  Oracle: vf/modelcmp behavioural comparison, identical "
+   "seeded simulations of original and clone in 2..3 modes (single cell + lineage tree for lineage models), equal "
+   "event propensities / counts / seeded partitions, equal arrays and link structure for results with links being "
+   "identities inside the restored object, and unchanged dictionaries / stoichiometry / seeded output of one side "
+   "after an edit (set_parameter, dummy parameter, set_species, create_reaction, create_rule, new parameter) of the "
+   "other.  Non-trivial: >= 3 distinct member classes, or a copy of a copy, or a clone taken after an edit or a "
+   "simulation; for results a trajectory that moved / a lineage with >= 3 schnitzes.",
+   _COMMON + ["lineage models use LineageVolumeSplitter (the other splitters return plain cell states that the lineage "
+              "simulator cannot use)", "VolumeCellState.volume_object is not part of the documented state tuple and is not compared"],
+   budget={"quick": 200, "thorough": 2400})
+
+_m("C19",
+   "Four generated families.  splitter: PerfectBinomialVolumeSplitter, GeneralVolumeSplitter (py_set_partitioning with "
+   "perfect / duplicate / binomial lists, partition noise 0..0.4) and LineageVolumeSplitter (per-species modes, default, "
+   "volume mode binomial / perfect / duplicate, partition noise 0..0.8) x 1..4 mothers (counts 0..200, volumes 0.5..8) "
+   "x 1..12 partitions each: conservation or duplication per mode, 'perfect' within one molecule of the volume "
+   "fraction, integrality, non-negativity, volumes summing to (or duplicating) the mother's, daughters' time, mother "
+   "left unchanged.  splitter_stat: 10k (quick) / 40k (thorough) seeded partitions per configuration; binomially "
+   "partitioned counts against Binomial(n, daughter volume fraction) by chi-square on the pmf (fixed fraction) or "
+   "randomized probability-integral transform + KS (noisy fraction), the volume fraction against its uniform law; "
+   "two-stage protocol.  lineage: lineage models from vf/lingen.py (A<->B conserving reactions incl. models without "
+   "reactions or whose reactions die out, optional inflow species, every growth rule / event, division rule / event "
+   "with a LineageVolumeSplitter, optional death rule / event, 1..3 initial cells, 10..48 grid points) simulated from a "
+   "seed: mutual mother/daughter links, daughters start at the mother's last time from a valid partition of her last "
+   "row under one of the model's division mechanisms, contiguous grid slices, positive volume, integer counts, "
+   "per-cell conserved total on every row, frozen state when nothing can react, volume rows following the noise-free "
+   "growth law one step behind, records reaching the end of the grid unless divided (or a death mechanism exists). "
+   "single: py_SimulateSingleCell (plain and safe): the same per-row invariants, first row = initial condition, "
+   "truncated <=> flagged divided or dead, flags only from mechanisms the model has.  Non-trivial: a lineage with "
+   ">= 3 schnitzes or a cell whose reactions are exhausted; a single cell that divided, died or has exhausted "
+   "reactions; a mother with molecules.",
+   _COMMON + ["statistical power: with 10k partitions a binomial fraction that is off by 0.05 is rejected (see DESIGN.md)",
+              "lineage models use LineageVolumeSplitter; species assigned by plain rules are excluded from the partition identity",
+              "models are built so that lineages stay small; the simulator's explicit 'dividing too fast' rejection is a skip"],
+   budget={"quick": 200, "thorough": 2400})
